@@ -81,3 +81,5 @@ pub fn jstr(s: &str) -> String {
     }
     o.push('"'); o
 }
+
+pub mod eng;
